@@ -84,6 +84,7 @@ class LoopGen(F.Gen):
         self.p_const = p_const
         self.max_trip = max_trip
         self.nconst = 0
+        self.zero_trip_wanted = False
 
     def pragma_line(self, toplevel):
         r = self.rng.random()
@@ -104,9 +105,13 @@ class LoopGen(F.Gen):
             return super().stmt(0)
         v = free[0]
         st = rng.choice(self.STEPS)
-        for _ in range(20):
+        for _ in range(40):
             lo, hi = rng.randint(-2, 5), rng.randint(-3, 6)
             vals = do_values(lo, hi, st)
+            if self.family == 'unroll-negpow' and not (vals and min(vals) < 0):
+                continue
+            if self.zero_trip_wanted and vals:
+                continue
             if len(vals) <= self.max_trip and (vals or rng.random() < 0.25):
                 break
         else:
@@ -120,6 +125,10 @@ class LoopGen(F.Gen):
         self.int_scalars = saved
         self.active_loops.pop()
         self.nconst += 1
+        if self.family == 'unroll-exitcycle' and rng.random() < 0.8:
+            body.insert(rng.randint(0, len(body)), if_(self.cond(self.int_scalars), [{'s': rng.choice(['exit', 'cycle'])}], inline=True))
+        if self.family == 'unroll-print' and rng.random() < 0.8:
+            body.insert(rng.randint(0, len(body)), {'s': 'print', 'items': [op('sum', V(v), N(rng.randint(0, 3)))]})
         if self.family == 'unroll-negpow':
             if vals and min(vals) < 0:
                 t = rng.choice(['t1', 't2', 'k'])
@@ -135,7 +144,22 @@ class LoopGen(F.Gen):
             out.append(assign(V(t), self.bounded(op('sum', V(t), V(v)))))
         return out
 
+    def select_of_loops(self, d):
+        """SELECT CASE whose branches consist of one constant-bound loop each (some of them zero-trip)."""
+        rng = self.rng
+        cases, lo = [], 0
+        for _ in range(rng.randint(2, 3)):
+            hi = lo + rng.choice([0, 0, 1])
+            self.zero_trip_wanted = rng.random() < 0.5
+            cases.append({'lo': lo, 'hi': hi, 'body': self.const_do(d - 1)})
+            self.zero_trip_wanted = False
+            lo = hi + 1
+        return [{'s': 'select', 'e': call('mod', call('abs', self.int_expr(1, self.int_scalars)), N(lo + 1)), 'cases': cases,
+                 'default': self.block(d - 1, 1) if rng.random() < 0.7 else []}]
+
     def stmt(self, d):
+        if d > 0 and self.family == 'unroll-select' and not self.active_loops and self.rng.random() < 0.35:
+            return self.select_of_loops(d)
         if d > 0 and self.rng.random() < self.p_const:
             return self.const_do(d)
         toplevel = not self.active_loops
@@ -395,7 +419,7 @@ class NestGen(F.Gen):
     def fission(self):
         rng = self.rng
         fam = self.family
-        promote = fam == 'fission-promote'
+        promote = fam.startswith('fission-promote')
         body = [self.side_stmt()]
         rank = rng.choice([1, 1, 2])
         pool = list(self.D2 if rank == 2 else self.D1)
@@ -404,10 +428,10 @@ class NestGen(F.Gen):
             E = rng.sample(pool, len(pool))
         env = self.env_for(E, rank)
         kind = rng.choice(['full', 'const', 'sym'])
-        if promote:
-            # promoted temporaries are dimensioned by the loop's upper bound and indexed by the loop variable
-            rngs = [(N(1), self.range_for(E, d, 'full')[1]) if self.dims[E[0]][d][0] <= 1 and rng.random() < 0.6
-                    else self.range_for(E, d, kind) for d in range(rank)]
+        if fam == 'fission-promote':
+            # promoted temporaries are dimensioned by the loop's upper bound and indexed by the loop variable:
+            # loops start at 1 here (other lower bounds: family fission-promote-lb)
+            rngs = [(N(1), self.range_for(E, d, rng.choice(['full', 'sym']))[1]) for d in range(rank)]
         else:
             rngs = [self.range_for(E, d, kind) for d in range(rank)]
         nseg = rng.choice([2, 2, 3])
@@ -554,7 +578,7 @@ def gen_nest(rng, family):
 
 
 C31_GENERAL = ('unroll', 'unroll-select', 'unroll-negpow', 'unroll-exitcycle', 'unroll-loopvar', 'unroll-print', 'split')
-C31_NEST = ('fusion', 'fusion-mismatch', 'fusion-collapse', 'fission', 'fission-autopromote', 'fission-promote',
+C31_NEST = ('fusion', 'fusion-mismatch', 'fusion-collapse', 'fission', 'fission-autopromote', 'fission-promote', 'fission-promote-lb',
             'interchange', 'interchange-project', 'block')
 
 
@@ -746,7 +770,7 @@ def report_by_family(ctx, cases, results, fails, transform, rounds=None, reps=No
     candidates of one round are checked in ONE behaviour_check batch, i.e. by TLC against the machine) and
     report one violation per distinct key  family:signature:normal-form-of-the-shrunk-program."""
     quick = ctx.quick
-    rounds = rounds if rounds is not None else (2 if quick else 5)
+    rounds = rounds if rounds is not None else (1 if quick else 5)
     reps = reps or (1 if quick else 2)
     cands_per = cands_per or (14 if quick else 40)
     max_states = max_states or (8 if quick else 24)
